@@ -594,6 +594,22 @@ def c17(tier):
                   extra_cov={"binary_runs": n, "binary_runs_ok": ok}, traces_validated=sum(r.evals for r in res) + ok, extra_viol=extra_viol, t0=t0)
 
 
+@check("C16")
+def c16(tier):
+    t0 = time.time()
+    b = build("pipe")
+    d, env = sched_env("c16")
+    res = [run_space(b, "mirror.len", tier, env=env, hang_s=60), run_space(b, "pipe.c16", tier, env=env, hang_s=180)]
+    import shutil
+    shutil.rmtree(d, ignore_errors=True)
+    inc = [r.space for r in res if not r.complete]
+    return finish("C16", tier, res,
+                  rule="mirror.len: the real mirrorIPFIX / mirrorSFlow goroutines driven through their real channel and a real raw socket over loopback: max-udp-size {64, 576, 1500} x target port {10024, 1024, 65535} x exporter {192.1.1.1, 10.0.0.1, 127.0.0.2, 255.255.255.254} x address form {4-byte, 16-byte} x 2 fills x EVERY payload length 0..max (quick: every length for the first exporter, every 7th plus both ends for the others; every port only with the smallest buffer). "
+                       "Oracle: exactly one datagram reaches the UDP listener, payload identical, source address = exporter, and the IP header captured on a raw IPPROTO_UDP socket has total length 20+8+n, UDP length 8+n, IHL 5, destination 127.0.0.1 and the target port. "
+                       "pipe.c16: the ipfix and sflow pipelines with mirroring enabled under the scheduler: published payloads equal the standalone decodes (mirroring never changes what is published), the mirror goroutines receive every datagram unchanged, no race report.",
+                  assumptions=PIPE_ASSUME + ["CAP_NET_RAW is required (present in this sandbox type); without it the space reports exhaustive=false", "IPv4 mirror targets only (the IPv6 path leaves the UDP checksum TODO in the repository and needs a routable IPv6 loopback)"], t0=t0)
+
+
 def main(argv):
     if len(argv) >= 1 and argv[0] == "--setup":
         for n in BINARIES:
